@@ -26,6 +26,7 @@ type e2eCase struct {
 	Size int     `json:"size,omitempty"`      // findcontent: content size
 	Keys int     `json:"keys,omitempty"`      // offer: number of keys
 	Drop int     `json:"drop"`                // index of the datagram that is lost (-1: none)
+	Via  string  `json:"via,omitempty"`       // "gnet": both nodes receive through the receive path of portalwire/gnet.go
 	Dev  string  `json:"deviation,omitempty"` // "" = lost, "dup" = delivered twice, "swap" = delivered after its successor, "cut" = this and every later datagram lost
 }
 
@@ -47,8 +48,8 @@ func e2eRun(r *mc.Report, c e2eCase, finish func(digest string)) (digest string,
 	viol := func(clause, site, detail string) { r.Violation(clause, site, detail, c) }
 	msg := inBubble(func() {
 		w := newWire()
-		a := newMNode(w, mnodeOpts{keyIdx: 31, versions: c.VA, utpLimit: 5})
-		b := newMNode(w, mnodeOpts{keyIdx: 32, versions: c.VBs, utpLimit: 5})
+		a := newMNode(w, mnodeOpts{keyIdx: 31, versions: c.VA, utpLimit: 5, gnet: c.Via == "gnet"})
+		b := newMNode(w, mnodeOpts{keyIdx: 32, versions: c.VBs, utpLimit: 5, gnet: c.Via == "gnet"})
 		swapped := false
 		// "late-accept": the goroutine in which the responder waits for the uTP connection is held at
 		// its AcceptWithCid call (an injected yield tagged with the callee) until Drop further
@@ -103,6 +104,9 @@ func e2eRun(r *mc.Report, c e2eCase, finish func(digest string)) (digest string,
 		}
 		share := shareVersion(c.VA, c.VBs)
 		site := fmt.Sprintf("%s:%v-%v", c.Op, c.VA, c.VBs)
+		if c.Via != "" {
+			site = fmt.Sprintf("%s:%v-%v:via-%s", c.Op, c.VA, c.VBs, c.Via)
+		}
 		if c.Drop >= 0 {
 			site = c.Op + ":one-datagram-" + map[string]string{"": "lost", "dup": "duplicated", "swap": "reordered", "cut": "and-all-later-ones-lost", "late-accept": "-no-loss-but-the-responder-accepts-late"}[c.Dev]
 		}
@@ -177,6 +181,9 @@ func e2eRun(r *mc.Report, c e2eCase, finish func(digest string)) (digest string,
 		}
 		datagrams = w.sent
 		r.Max("max_e2e_datagram_bytes", int64(w.maxLen))
+		if w.maxLen == portalwire.VerifMaxPacketSize {
+			r.Count("e2e_cases_with_a_datagram_of_exactly_the_maximum_size", 1)
+		}
 		r.Max("max_e2e_datagrams", int64(w.sent))
 		if finish != nil {
 			finish(digest)
@@ -223,6 +230,27 @@ func e2eCasesFor(prop string, thorough bool) []e2eCase {
 				}
 				for keys := 1; keys <= 3; keys++ {
 					cs = append(cs, e2eCase{Prop: prop, Op: "offer", VA: va, VBs: vb, Keys: keys, Drop: -1})
+				}
+			}
+		}
+	}
+	// the inline threshold on the wire: every content size from well below it up to the first that
+	// goes over uTP, on the plain wire and through the receive path of the gnet transport (one of
+	// these replies is a datagram of exactly the maximum size)
+	if prop == "C08" {
+		for _, v := range [][]uint8{{0}, {1}} {
+			for _, via := range []string{"", "gnet"} {
+				lo := 1168
+				if thorough {
+					lo = 1100
+				}
+				for size := lo; size <= 1178; size++ {
+					cs = append(cs, e2eCase{Prop: prop, Op: "findcontent", VA: v, VBs: v, Size: size, Drop: -1, Via: via})
+				}
+				for _, size := range []int{0, 1, 5000} {
+					if via != "" {
+						cs = append(cs, e2eCase{Prop: prop, Op: "findcontent", VA: v, VBs: v, Size: size, Drop: -1, Via: via})
+					}
 				}
 			}
 		}
